@@ -13,7 +13,7 @@ CHUNK = 8
 
 
 def plan(ctx):
-    n = ctx.n(3000, 80000)
+    n = ctx.n(9000, 150000)
     return [('case', engine.stable_hash((ctx.seed, 'c09', i))) for i in range(n)]
 
 
